@@ -422,22 +422,36 @@ def with_unit(leaf, u):
     return [3, 3 * u + leaf[1] % 3]
 
 
-def is_lit_exp(x):
-    """python twin of Model/UnitCalc.v lit_exp"""
-    if x[0] == 0:
+def closed_exponent(x):
+    """python twin of Model/UnitCalc.v num_exp: a sum / product of numbers and quantities (no variable)"""
+    if x[0] in (0, 2):
         return True
-    if x[0] == 2:
-        return 0 <= x[3] < NU and UTAB[x[3]] == {}
+    if x[0] in (4, 5):
+        return all(closed_exponent(a) for a in x[1:])
     return False
 
 
-def is_lit_product(x):
-    """literal exponents the code also reads correctly: products / negations of literals"""
-    return is_lit_exp(x) or (x[0] == 5 and all(is_lit_product(a) for a in x[1:]))
+def exponent_vars(t):
+    """variables that occur inside an exponent: traverse reads them at their initial value (a constant parameter
+    such as a Hill coefficient), so the valuations of the oracle keep them there"""
+    out = set()
+    for s in subtrees(t):
+        if s[0] == 6:
+            out.update(x[1] for x in subtrees(s[2]) if x[0] == 3)
+    return out
+
+
+def pin_exponent_vars(t, vals):
+    vals = list(vals)
+    for v in exponent_vars(t):
+        if var_init(v):
+            vals[v] = float(var_init(v))
+    return vals
 
 
 def has_compound_exponent(t):
-    return any(s[0] == 6 and not is_lit_product(s[2]) for s in subtrees(t))
+    """some exponent is not a closed sum / product of numbers and quantities"""
+    return any(s[0] == 6 and not closed_exponent(s[2]) for s in subtrees(t))
 
 
 def has_fn(t, ids):
